@@ -112,6 +112,9 @@ def parse_output(out: str, rc: int, wall: float, cmd: str) -> TLCResult:
         r.violated, r.violation_kind = m2.group(1), "action_property"
     if "Error: Temporal properties were violated" in out:
         r.violated, r.violation_kind = r.violated or "temporal", "temporal"
+    m3 = re.search(r"Error: Temporal property (\S+) was violated", out)
+    if m3:
+        r.violated, r.violation_kind = m3.group(1), "temporal"
     if "Error: Deadlock reached" in out:
         r.violated, r.violation_kind = "deadlock", "deadlock"
     m3 = re.search(r"Error: Assumption (.*?) is false", out)
